@@ -704,4 +704,243 @@ Section WithV.
     apply (final_pass hfull ks r Hw Ht); [|exact H].
     destruct ks as [[c vs]|]; [|exact I]. destruct Hpost as [Hg Hc]. split; [exact Hg | right; exact Hc].
   Qed.
+
+  (** * Whole extensions *)
+  Notation canonical_mod_none := (canonical_mod_none vnone).
+
+  Lemma canonical_mod_none_kcanon (e : ext V) k : canonical_mod_none e -> kcanon (hdr_of e) (lookup_e e k).
+  Proof.
+    intros [Hv Hcan]. destruct (lookup_e e k) as [[c vs]|] eqn:El; [|exact I].
+    pose proof (lookup_In _ _ _ El) as Hin. destruct Hv as [_ [_ Hent]]. pose proof (Hent _ _ _ Hin) as Hok.
+    split; [exact Hok|]. eapply canon_class_ext; [|apply (Hcan _ _ _ Hin)].
+    intros p _. apply den_fden; [exact El | apply Hok].
+  Qed.
+
+  Lemma kcanon_canonical_mod_none h (ents : list (key * (cls * list V))) :
+    hdr_wf h -> NoDup (map fst ents) -> (forall k c vs, In (k, (c, vs)) ents -> kcanon h (Some (c, vs))) ->
+    canonical_mod_none (mk_ext h ents).
+  Proof.
+    intros Hw Hnd Hkey. split.
+    - split; [exact Hw|]. split; [exact Hnd|]. intros k c vs Hin. apply (Hkey k c vs Hin).
+    - intros k c vs Hin. cbn [hdr_of]. destruct (Hkey k c vs Hin) as [[Hc _] Hcc].
+      eapply canon_class_ext; [|exact Hcc]. intros p _. symmetry. apply den_fden; [|exact Hc].
+      apply In_lookup; [exact Hnd | exact Hin].
+  Qed.
+
+  (** the slice dimension of the result *)
+  Definition sdim_res (e0 : ext V) (sd : option nat) : option nat :=
+    match sd with Some d => Some d | None => sdim (hdr_of e0) end.
+
+  Lemma from_sequence_keys es e0 rest dim a sd r :
+    es = e0 :: rest -> 1 <= length rest -> valid e0 ->
+    from_sequence veqb vnone es dim a sd = Ok r ->
+    exists hfull ents, r = mk_ext hfull ents /\
+      frame hfull (shape (hdr_of e0)) dim (S (length rest)) /\ hdr_wf hfull /\ sdim hfull = sdim_res e0 sd /\
+      NoDup (map fst ents) /\
+      forall k c vs, In (k, (c, vs)) ents ->
+        merge_k veqb vnone hfull dim ((hdr_of e0, lookup_e e0 k) :: map (fun e => (hdr_of e, lookup_e e k)) rest)
+        = Ok (Some (c, vs)).
+  Proof.
+    intros -> Hlen Hv0 H. unfold from_sequence in H. apply bind_ok in H as [hfull [Hh H]].
+    apply bind_ok in H as [ents [Hents H]]. injection H as <-.
+    destruct (merge_hdr_frame (map (@hdr_of V) (e0 :: rest)) (hdr_of e0) dim a sd hfull eq_refl) as [F [Hw [Hsd _]]].
+    - cbn [map length]. rewrite map_length. lia.
+    - apply Hv0.
+    - exact Hh.
+    - exists hfull, ents. split; [reflexivity|]. cbn [map length] in F. rewrite map_length in F.
+      split; [exact F|]. split; [exact Hw|]. split; [exact Hsd|]. split.
+      + eapply map_keys_NoDup; [exact Hents | apply dedup_keys_NoDup].
+      + intros k c vs Hin. destruct (map_keys_In _ _ _ _ _ Hents Hin) as [_ Hk]. exact Hk.
+  Qed.
+
+  (** ** C06 for merges along the slice, time or vector axis: inputs in ANY valid nondegenerate classification *)
+  Theorem merge_canonical_axis es e0 rest dim a sd ax r :
+    es = e0 :: rest -> 1 <= length rest ->
+    (forall e, In e es -> valid e /\ nondegenerate e /\ shape (hdr_of e) = shape (hdr_of e0) /\
+                          sdim (hdr_of e) = sdim_res e0 sd) ->
+    axis_of (sdim_res e0 sd) dim = Some ax -> (3 <= dim -> sdim_res e0 sd <> None) ->
+    from_sequence veqb vnone es dim a sd = Ok r -> canonical_mod_none r.
+  Proof.
+    intros Ees Hlen Hall Hax Hn3 H.
+    assert (Hv0 : valid e0) by (apply Hall; rewrite Ees; left; reflexivity).
+    destruct (from_sequence_keys es e0 rest dim a sd r Ees Hlen Hv0 H) as [hfull [ents [-> [F [Hw [Hsd [Hnd Hkeys]]]]]]].
+    apply kcanon_canonical_mod_none; [exact Hw | exact Hnd|].
+    intros k c vs Hin. rewrite <- Hsd in Hax, Hn3.
+    apply (merge_k_canon_axis hfull _ dim ax _ _ (map (fun e => (hdr_of e, lookup_e e k)) rest) _);
+      [rewrite map_length; exact F | exact Hw | exact Hax | exact Hn3 | | apply Hkeys; exact Hin].
+    assert (Hone : forall e, In e es -> inp hfull (shape (hdr_of e0)) (hdr_of e) /\
+                     good_k (hdr_of e) (lookup_e e k) /\ nondeg_k (hdr_of e) (lookup_e e k)).
+    { intros e He. destruct (Hall e He) as [Hv [Hn [Hsh Hs]]]. split; [split; [exact Hsh | congruence]|].
+      split; [apply valid_good_k; exact Hv | apply nondegenerate_nondeg_k; exact Hn]. }
+    constructor; [apply (Hone e0); rewrite Ees; left; reflexivity|].
+    apply Forall_forall. intros i Hi. apply in_map_iff in Hi as [e [<- He]]. apply Hone. rewrite Ees. right. exact He.
+  Qed.
+
+  (** ** ... and along a non-slice spatial axis: canonical inputs *)
+  Theorem merge_canonical_nonslice es e0 rest dim a sd r :
+    es = e0 :: rest -> 1 <= length rest ->
+    (forall e, In e es -> canonical_mod_none e /\ shape (hdr_of e) = shape (hdr_of e0) /\
+                          sdim (hdr_of e) = sdim_res e0 sd) ->
+    dim < 3 -> sdim_res e0 sd <> Some dim ->
+    from_sequence veqb vnone es dim a sd = Ok r -> canonical_mod_none r.
+  Proof.
+    intros Ees Hlen Hall Hd3 Hns H.
+    assert (Hv0 : valid e0) by (apply Hall; rewrite Ees; left; reflexivity).
+    destruct (from_sequence_keys es e0 rest dim a sd r Ees Hlen Hv0 H) as [hfull [ents [-> [F [Hw [Hsd [Hnd Hkeys]]]]]]].
+    apply kcanon_canonical_mod_none; [exact Hw | exact Hnd|].
+    intros k c vs Hin. rewrite <- Hsd in Hns.
+    apply (merge_k_canon_nonslice hfull _ dim _ _ (map (fun e => (hdr_of e, lookup_e e k)) rest) _);
+      [rewrite map_length; exact F | exact Hw | exact Hd3 | exact Hns | | apply Hkeys; exact Hin].
+    assert (Hone : forall e, In e es -> inp hfull (shape (hdr_of e0)) (hdr_of e) /\ kcanon (hdr_of e) (lookup_e e k)).
+    { intros e He. destruct (Hall e He) as [Hc [Hsh Hs]]. split; [split; [exact Hsh | congruence]|].
+      apply canonical_mod_none_kcanon. exact Hc. }
+    constructor; [apply (Hone e0); rewrite Ees; left; reflexivity|].
+    apply Forall_forall. intros i Hi. apply in_map_iff in Hi as [e [<- He]]. apply Hone. rewrite Ees. right. exact He.
+  Qed.
+
+  (** * Corollaries (true of every extension whose keys sit at their canonical class) *)
+  Lemma origin_in_dims (h : hdr) : hdr_wf h -> in_dims (dims h) (0, 0, 0).
+  Proof.
+    intros Hw. pose proof (dims_pos_of_wf h Hw) as Hp. destruct (dims h) as [[nS nT] nV]. cbn [dims_pos in_dims] in *. lia.
+  Qed.
+
+  (** a key with the same non-None value everywhere is a global constant, readable without an index *)
+  Theorem const_readable (r : ext V) k v :
+    canonical_mod_none r -> v <> vnone ->
+    (forall p, in_dims (dims (hdr_of r)) p -> den vnone r k p = v) ->
+    lookup_e r k = Some (GConst, [v]) /\ getitem r k = Ok v.
+  Proof.
+    intros Hc Hv Hall. pose proof Hc as [[Hw _] _].
+    pose proof (canonical_mod_none_kcanon r k Hc) as Hk.
+    pose proof (Hall _ (origin_in_dims _ Hw)) as H0.
+    destruct (lookup_e r k) as [[c vs]|] eqn:El.
+    - destruct Hk as [[Hok [_ Hl]] [_ [_ Hmin]]].
+      assert (Hr0 : representable (dims (hdr_of r)) GConst (fden (dims (hdr_of r)) c vs)).
+      { intros p q Hp Hq _. rewrite <- !(den_fden vnone r k c vs) by assumption. rewrite !Hall by assumption. reflexivity. }
+      specialize (Hmin GConst (class_ok_gconst _ Hw) Hr0).
+      assert (c = GConst) by (apply pref_rank_inj; cbn [pref_rank] in *; lia). subst c.
+      assert (Hl1 : length vs = 1) by (rewrite Hl; destruct (dims (hdr_of r)) as [[? ?] ?]; reflexivity).
+      rewrite (den_fden vnone r k GConst vs _ El Hok) in H0. unfold ProofsSimplifyLayout.fden in H0.
+      destruct (dims (hdr_of r)) as [[? ?] ?]. cbn [cidx] in H0.
+      destruct vs as [|x [|y t]]; try discriminate Hl1. cbn [nth] in H0. subst x.
+      split; [reflexivity|]. unfold getitem. rewrite El. reflexivity.
+    - exfalso. apply Hv. rewrite <- H0. unfold den. rewrite El. reflexivity.
+  Qed.
+
+  (** a key that is None everywhere is absent, or kept as the global constant None (never in a varying class) *)
+  Theorem none_only_const (r : ext V) k :
+    canonical_mod_none r ->
+    (forall p, in_dims (dims (hdr_of r)) p -> den vnone r k p = vnone) ->
+    lookup_e r k = None \/ lookup_e r k = Some (GConst, [vnone]).
+  Proof.
+    intros Hc Hall. pose proof Hc as [[Hw _] _].
+    pose proof (canonical_mod_none_kcanon r k Hc) as Hk.
+    pose proof (Hall _ (origin_in_dims _ Hw)) as H0.
+    destruct (lookup_e r k) as [[c vs]|] eqn:El; [right | left; reflexivity].
+    destruct Hk as [[Hok [_ Hl]] [_ [_ Hmin]]].
+    assert (Hr0 : representable (dims (hdr_of r)) GConst (fden (dims (hdr_of r)) c vs)).
+    { intros p q Hp Hq _. rewrite <- !(den_fden vnone r k c vs) by assumption. rewrite !Hall by assumption. reflexivity. }
+    specialize (Hmin GConst (class_ok_gconst _ Hw) Hr0).
+    assert (c = GConst) by (apply pref_rank_inj; cbn [pref_rank] in *; lia). subst c.
+    assert (Hl1 : length vs = 1) by (rewrite Hl; destruct (dims (hdr_of r)) as [[? ?] ?]; reflexivity).
+    rewrite (den_fden vnone r k GConst vs _ El Hok) in H0. unfold ProofsSimplifyLayout.fden in H0.
+    destruct (dims (hdr_of r)) as [[? ?] ?]. cbn [cidx] in H0.
+    destruct vs as [|x [|y t]]; try discriminate Hl1. cbn [nth] in H0. subst x. reflexivity.
+  Qed.
+
+  (** a key that is constant within every volume is stored once per volume (or less): never per slice *)
+  Theorem per_volume (r : ext V) k c vs :
+    canonical_mod_none r -> lookup_e r k = Some (c, vs) ->
+    (forall s s' t v, in_dims (dims (hdr_of r)) (s, t, v) -> in_dims (dims (hdr_of r)) (s', t, v) ->
+                      den vnone r k (s, t, v) = den vnone r k (s', t, v)) ->
+    is_slices c = false /\ length vs = mult_spec (dims (hdr_of r)) c /\
+    length vs <= snd (fst (dims (hdr_of r))) * snd (dims (hdr_of r)).
+  Proof.
+    intros Hc El Hvol. pose proof Hc as [[Hw _] _].
+    pose proof (canonical_mod_none_kcanon r k Hc) as Hk. rewrite El in Hk.
+    destruct Hk as [[Hok [_ Hl]] [_ [_ Hmin]]].
+    set (h := hdr_of r) in *. destruct (dims h) as [[nS nT] nV] eqn:Ed.
+    pose proof (dims_pos_of_wf h Hw) as Hpos. rewrite Ed in Hpos. destruct Hpos as [HS [HT HV]].
+    assert (Hf : forall p, fden (nS, nT, nV) c vs p = den vnone r k p).
+    { intros p. rewrite <- Ed. symmetry. apply den_fden; assumption. }
+    (* some class that ignores the slice index represents the key *)
+    assert (Hx : exists x, class_ok (shape h) x = true /\ is_slices x = false /\
+                           representable (nS, nT, nV) x (fden (nS, nT, nV) c vs)).
+    { destruct (class_ok_by_dims h nS nT nV Hw Ed) as [[_ [-> [-> Hcls]]]|[[_ [-> Hcls]]|[_ Hcls]]].
+      - exists GConst. rewrite Hcls. split; [reflexivity|]. split; [reflexivity|].
+        intros [[s t] v] [[s' t'] v'] Hp Hq _. rewrite !Hf. cbn [in_dims] in Hp, Hq.
+        assert (t = 0 /\ v = 0 /\ t' = 0 /\ v' = 0) as [-> [-> [-> ->]]] by lia. apply Hvol; cbn [in_dims]; lia.
+      - exists TSamples. rewrite Hcls. split; [reflexivity|]. split; [reflexivity|].
+        apply representable_proj. intros [[s t] v] [[s' t'] v'] Hp Hq E. cbn [proj] in E. injection E as -> ->.
+        rewrite !Hf. apply Hvol; assumption.
+      - destruct (Nat.eqb_spec nT 1) as [->|HnT].
+        + exists VSamples. rewrite Hcls. split; [reflexivity|]. split; [reflexivity|].
+          apply representable_proj. intros [[s t] v] [[s' t'] v'] Hp Hq E. cbn [proj] in E. injection E as ->.
+          rewrite !Hf. cbn [in_dims] in Hp, Hq. assert (t = 0 /\ t' = 0) as [-> ->] by lia. apply Hvol; cbn [in_dims]; lia.
+        + exists TSamples. rewrite Hcls. cbn [base_of]. split; [apply negb_true_iff, Nat.eqb_neq; exact HnT|].
+          split; [reflexivity|].
+          apply representable_proj. intros [[s t] v] [[s' t'] v'] Hp Hq E. cbn [proj] in E. injection E as -> ->.
+          rewrite !Hf. apply Hvol; assumption. }
+    destruct Hx as [x [Hxok [Hxs Hxr]]]. specialize (Hmin x Hxok Hxr).
+    cbn [fst snd]. rewrite Hl.
+    destruct c, x; cbn [pref_rank is_slices sub_of] in *; try lia; try discriminate Hxs;
+      (split; [reflexivity|]); (split; [reflexivity|]); cbn [mult_spec]; nia.
+  Qed.
 End WithV.
+
+(** * Refutations (both replayed on the real code) *)
+Definition ex_n6_h : hdr := mk_hdr [1; 2; 2; 2] (Some 2) ex_aff true false.
+Definition ex_n6_a : ext nat := mk_ext ex_n6_h [([107]%N, (GConst, [5]))].
+Definition ex_n6_b : ext nat := mk_ext ex_n6_h [([107]%N, (TSamples, [5; 5]))].
+
+(** finding N6: merging along a NON-SLICE spatial axis never simplifies; a widened (valid, nondegenerate but
+    non-canonical) input leaves the key of the result in a non-canonical class *)
+Theorem merge_nonslice_widened_refuted :
+  exists (es : list (ext nat)) dim r,
+    (forall e, In e es -> valid e /\ nondegenerate e /\ shape (hdr_of e) = [1; 2; 2; 2] /\ sdim (hdr_of e) = Some 2) /\
+    dim < 3 /\ Some 2 <> Some dim /\
+    from_sequence Nat.eqb 0 es dim None None = Ok r /\ ~ canonical_mod_none 0 r.
+Proof.
+  exists [ex_n6_a; ex_n6_b], 0. eexists. split.
+  { intros e [<-|[<-|[]]]; (split; [apply validb_valid; vm_compute; reflexivity|]);
+      (split; [apply nondegenerateb_nondegenerate; [apply validb_valid|]; vm_compute; reflexivity|]); split; reflexivity. }
+  split; [lia|]. split; [discriminate|]. split; [vm_compute; reflexivity|].
+  intros [_ H]. destruct (H _ _ _ (or_introl eq_refl)) as [_ [_ Hmin]].
+  assert (Hr : representable (2, 2, 1) GConst
+                 (den 0 (mk_ext (mk_hdr [2; 2; 2; 2] (Some 2) ex_aff true false) [([107]%N, (TSamples, [5; 5]))]) [107]%N)).
+  { intros [[s t] v] [[s' t'] v'] [_ [Ht Hv]] [_ [Ht' Hv']] _. unfold den. cbn.
+    destruct t as [|[|t]], t' as [|[|t']], v, v'; try lia; reflexivity. }
+  specialize (Hmin GConst eq_refl Hr). cbn in Hmin. lia.
+Qed.
+
+(** "keys that are None everywhere are dropped" is false as an obligation (the property only says MAY):
+    a widened all-None key comes out of the final simplify as the global constant None *)
+Definition ex_none_e : ext nat := mk_ext (mk_hdr [1; 1; 2] (Some 2) ex_aff false false) [([107]%N, (GSlices, [0; 0]))].
+
+Theorem none_dropped_refuted :
+  exists (es : list (ext nat)) dim r k,
+    (forall e, In e es -> valid e /\ nondegenerate e) /\
+    from_sequence Nat.eqb 0 es dim None None = Ok r /\
+    (forall p, den 0 r k p = 0) /\ lookup_e r k <> None.
+Proof.
+  exists [ex_none_e; ex_none_e], 3. eexists. exists [107]%N. split.
+  { intros e [<-|[<-|[]]]; (split; [apply validb_valid; vm_compute; reflexivity|]);
+      apply nondegenerateb_nondegenerate; [apply validb_valid|]; vm_compute; reflexivity. }
+  split; [vm_compute; reflexivity|]. split; [|discriminate].
+  intros [[s t] v]. reflexivity.
+Qed.
+
+(** non-vacuity of [merge_canonical_axis]: three 3-D inputs merged along time, one widened; the key is the same
+    in every slice of a volume and differs between volumes: it ends in ('time','samples') *)
+Definition ex_m_h : hdr := mk_hdr [1; 1; 2] (Some 2) ex_aff false false.
+Definition ex_m_es : list (ext nat) :=
+  [mk_ext ex_m_h [([107]%N, (GConst, [7]))]; mk_ext ex_m_h [([107]%N, (GSlices, [7; 7]))]; mk_ext ex_m_h [([107]%N, (GConst, [8]))]].
+
+Example merge_canonical_axis_example :
+  exists r, from_sequence Nat.eqb 0 ex_m_es 3 None None = Ok r /\ entries r = [([107]%N, (TSamples, [7; 7; 8]))] /\
+            (forall e, In e ex_m_es -> valid e /\ nondegenerate e /\ shape (hdr_of e) = [1; 1; 2] /\ sdim (hdr_of e) = Some 2).
+Proof.
+  eexists. split; [vm_compute; reflexivity|]. split; [reflexivity|].
+  intros e [<-|[<-|[<-|[]]]]; (split; [apply validb_valid; vm_compute; reflexivity|]);
+    (split; [apply nondegenerateb_nondegenerate; [apply validb_valid|]; vm_compute; reflexivity|]); split; reflexivity.
+Qed.
